@@ -138,7 +138,7 @@ int main (void)
     if (sscanf (line, "%d %lu %d %d %d %d %d %d %d %u", &P, &seed, &adv, &a.ppn_attach, &ppn_sim, &noncontig, &a.flavour, &a.dtype, &a.count, &a.dseed) < 10) continue;
     if (P < 1 || a.dtype < 0 || a.dtype > 7 || a.count < 0 || a.flavour < 0 || a.flavour >= (int) SC_SHMEM_NUM_TYPES) { printf ("RUN %d rc=-1 steps=0\nEND %d mem=0\n", run, run); ++run; continue; }
     a.out = (char **) calloc ((size_t) P, sizeof (char *));
-    int mem0 = sc_memory_status (-1);
+    int mem0 = sc_memory_status (-1) + sc_memory_status (sc_package_id);
     simmpi_opts o; simmpi_report rep;
     simmpi_opts_default (&o);
     o.nranks = P; o.seed = seed; o.adversary = adv; o.trace_path = tpath; o.ppn = ppn_sim; o.noncontig_nodes = noncontig;
@@ -157,7 +157,7 @@ int main (void)
     FILE *f = fopen (tpath, "r");
     if (f) { static char buf[65536]; size_t n; while ((n = fread (buf, 1, sizeof buf, f)) > 0) fwrite (buf, 1, n, stdout); fclose (f); }
     printf ("TRACE-END\n");
-    printf ("END %d mem=%d\n", run, sc_memory_status (-1) - mem0);
+    printf ("END %d mem=%d\n", run, sc_memory_status (-1) + sc_memory_status (sc_package_id) - mem0);
     fflush (stdout);
     simmpi_report_free (&rep);
     free (a.out);
